@@ -134,12 +134,12 @@ type Sim struct {
 	cfg Config
 	mu  sync.Mutex // guards task bookkeeping; never held while blocked
 
-	byGoid map[uint64]*Task
-	all    []*Task
-	active []*Task // tasks that have not finished, in creation order
-	cur    *Task
-	main   *Task
-	wakeCh chan struct{}
+	byGoid   map[uint64]*Task
+	all      []*Task
+	active   []*Task // tasks that have not finished, in creation order
+	cur      *Task
+	main     *Task
+	wakeCh   chan struct{}
 	rootGoid uint64
 	joinTok  int64 // address used as a synchronisation token for the race detector
 
@@ -204,9 +204,9 @@ func newSim(cfg Config) *Sim {
 		cfg.MaxSimTime = 12 * time.Hour
 	}
 	s := &Sim{
-		cfg:      cfg,
-		byGoid:   map[uint64]*Task{},
-		rng:      newPCG(cfg.Seed, 0x9e3779b97f4a7c15),
+		cfg:    cfg,
+		byGoid: map[uint64]*Task{},
+		rng:    newPCG(cfg.Seed, 0x9e3779b97f4a7c15),
 	}
 	s.plan = stream{replay: cfg.PlanVec, useRep: cfg.Replay}
 	s.run = stream{replay: cfg.RunVec, useRep: cfg.Replay}
